@@ -297,6 +297,30 @@ func init() {
 			}
 			return Iface{Dyn: ty, V: e.eval(args[0])}
 		},
+		// ctxvalue(ctx, key): what ctx.Value(key) returns (pure function of context and key)
+		"ctxvalue": func(e *Env, args []ast.Expr) Value {
+			c, ok := e.eval(args[0]).(Iface)
+			if !ok {
+				fail("spec: ctxvalue(ctx, key)")
+			}
+			var key Value
+			if id, ok := args[1].(*ast.Ident); ok {
+				if ps := e.pkgScope(); ps != nil {
+					if o, ok := ps.Scope().Lookup(id.Name).(*types.Const); ok {
+						key = Iface{Dyn: o.Type(), V: constToValue(e.st, o.Val(), o.Type())}
+					}
+				}
+			}
+			if key == nil {
+				key = e.eval(args[1])
+			}
+			kt, err := e.st.keyTerm(key)
+			if err != nil {
+				fail("spec: ctxvalue: %v", err)
+			}
+			vh := UF("ctx.value", SInt, c.Tid, c.Box, kt)
+			return Iface{Tid: UF("tid", SInt, vh), Box: vh}
+		},
 		"ufval_ptr": func(e *Env, args []ast.Expr) Value {
 			h := e.ufApp(args, SInt)
 			return Ptr{H: h, Elem: e.ptrElemHint(args)}
